@@ -28,7 +28,10 @@ SHAPES = [('i32', '', 4), ('i64', '', 8), ('i32', '8', 1), ('i32', '16', 2), ('i
 # ------------------------------------------------------------------------------------------------ sequential histories
 def seq_module(ch):
     m = Module()
-    m.memory = (1, 1, True)
+    if ch.below(3) == 0:
+        m.imports.append((b'env', b'memory', 'memory', (1, 1, True)))      # shared memory owned by the embedder
+    else:
+        m.memory = (1, 1, True)
     m.exports.append((b'mem', 'memory', 0))
     acc = []
 
@@ -401,11 +404,11 @@ def replay(rp):
 
 def plan(tier, seed):
     if tier == 'quick':
-        seq = [{'maker': 'c16_seq', 'ncases': 12, 'ccs': ['gcc-O0', 'clang-O2', 'gcc-O2', 'clang-O0', 'clang-O1-san'], 'nsteps': 160,
+        seq = [{'maker': 'c16_seq', 'ncases': 12, 'ccs': ['gcc-O0', 'clang-O2', 'gcc-O2', 'clang-O0', 'clang-O1-san', 'gcc-O1-be', 'clang-O2-be'], 'nsteps': 160,
                 'shrink_budget': 20, 'reduce_budget': 10} for _ in range(8)]
         st = [{'stress': True, 'ncases': 14, 'builds': ['gcc-O2', 'clang-O2', 'clang-tsan', 'gcc-O0']} for _ in range(8)]
         return seq + st
-    seq = [{'maker': 'c16_seq', 'ncases': 200, 'ccs': ['gcc-O0', 'clang-O2', 'gcc-O2', 'clang-O0', 'clang-O1-san', 'gcc-O3', 'clang-O3'],
+    seq = [{'maker': 'c16_seq', 'ncases': 200, 'ccs': ['gcc-O0', 'clang-O2', 'gcc-O2', 'clang-O0', 'clang-O1-san', 'gcc-O3', 'clang-O3', 'gcc-O1-be', 'clang-O2-be', 'gcc-O0-be'],
             'nsteps': 400, 'shrink_budget': 30, 'reduce_budget': 20} for _ in range(24)]
     st = [{'stress': True, 'ncases': 300, 'builds': ['gcc-O2', 'clang-O2', 'clang-tsan', 'gcc-O0']} for _ in range(16)]
     return seq + st
